@@ -67,6 +67,7 @@ type ScriptStream struct {
 	MaxRead    int          // 0: unlimited; otherwise the largest chunk a Read returns
 	CloseErr   bool         // Close reports an error (e.g. the owner had closed the connection already)
 	YieldEvery int          // inject runtime.Gosched() every n operations
+	WritesFail bool         // every Write fails while Reads go on working (a peer that stopped reading)
 
 	// OnWrite is called inside Write, after the bytes were recorded and
 	// before Write returns, without the stream lock held.
@@ -239,6 +240,11 @@ func (s *ScriptStream) Write(p []byte) (int, error) {
 		s.cond.Broadcast()
 	}
 	if s.failed != nil || s.inClosed {
+		s.mu.Unlock()
+		return 0, ErrStreamFailed
+	}
+	if s.WritesFail {
+		s.ops++
 		s.mu.Unlock()
 		return 0, ErrStreamFailed
 	}
